@@ -367,6 +367,8 @@ def run_asm(op, entities=None):
     if entities is None:
         entities = build_entities(v, mods)
     vec, ms, objs = entities
+    if not ms:
+        raise ValueError("assemble() takes at least one module: not a case")
     by_id = {id(o): oid for oid, o in objs.items()}
     prod = None
     with warnings.catch_warnings(record=True) as wl:
